@@ -199,6 +199,13 @@ class Evaluator:
                 raise Unfoldable('unpack')
             for t, v in zip(target.elts, vals):
                 self.bind(t, v, env)
+        elif isinstance(target, ast.Attribute) and dotted(target):
+            env[dotted(target)] = value
+        elif isinstance(target, ast.Subscript):
+            container = self.ev(target.value, env)
+            if not isinstance(container, (dict, list)):
+                raise Unfoldable('subscript store on non container')
+            container[self.ev(target.slice, env)] = value
         else:
             raise Unfoldable('bind target')
 
